@@ -41,3 +41,30 @@ chk("C19", "exploration", "E4",
     "All sequences of length 0..5 (quick) / 0..7 (thorough) over {-2.5,0,1,1,3,1e10,1e-10} - every order and tie pattern of every multiset - are passed to each Floats accessor and compared with textbook definitions computed on a sorted copy (empirical quantile at ceil(p*n)); a panic is a violation; NaN/0 on the empty series. All experiments with 0..2(3) trials of 0..3 generations over a 6-record menu: every aggregate accessor is recomputed directly from the recorded generations.",
     "Alphabet and length bounded; gonum is trusted for nothing (reference is independent).",
     "DESIGN.md section 3 C19")
+
+ENGINES.append({"name": "E1 choice-tree explorer (deviation-bounded, stateless)", "path": "cmd/mc/explore.go, pop.go, popcheck.go",
+  "serves_properties": ["C01", "C02", "C03", "C09", "C10", "C17", "C20"],
+  "kind_free_text": "every random draw of the real code is a choice point with a small menu (vrand shim through the build overlay); all executions within d deviations of several base policies are run to completion and checked"})
+
+_E1NOTE = ("Bounds: populations <= 12, 6-8 epochs, <= 1 deviation per run in quick and <= 2 on a scenario subset in thorough; random magnitudes from a 3-point menu; "
+           "no model: every explored trace is an implementation trace. Trusts go build -overlay, the import rewrite math/rand -> vrand and the accessor file.")
+
+chk("C02", "model_checking", "E1",
+    "stateless deviation-bounded exploration of all random-draw sequences of multi-epoch runs on the real code, invariant checked after every epoch",
+    "For every scenario (start genome incl. random populations x configuration row x fitness landscape x executor driving x base policy) ALL executions within 1 deviation (2 on a subset, thorough) of the base policy are run on the real NewPopulation/NextEpoch code; after construction and after every one of 6-8 epochs the C02 predicate is evaluated literally (no error, exact size, no survivor of the old generation, partition with agreeing back pointers, no empty species, unique never-reused species ids, unique genome ids, ageing rule with the first-turnover exception). Vacuity counters show stealing, delta coding, extinction and founding are reached.",
+    _E1NOTE, "DESIGN.md section 3 C02")
+
+chk("C03", "model_checking", "E1",
+    "stateless deviation-bounded exploration of multi-epoch runs with an innovation ledger over the whole history",
+    "Same execution space as C02 with a ledger attached for the whole run: innovation -> (in,out,recurrent) and node id -> role never change; every number first seen in a generation exceeds all held before; identical new links of one sequential generation carry one number and the generation's record never holds one innovation twice; record empty after each epoch; counters initialised past the initial population for NewPopulation and NewPopulationRandom.",
+    _E1NOTE, "DESIGN.md section 3 C03")
+
+chk("C09", "model_checking", "E1",
+    "stateless deviation-bounded exploration of multi-epoch runs; quota arithmetic re-derived from the old generation's objects after each epoch",
+    "Same execution space as C02 (positive landscapes weighted up; whole, phase-wise and species-wise driving of the sequential executor). After each epoch: expected offspring = adjusted fitness / population mean; fitness shared uniformly within a species; parents = top floor(survival*n)+1; prefix sums of quotas = floor of prefix sums of expected offspring with at most one make-up (when neither stealing nor delta coding applies); quotas total PopSize in all cases; each species yields exactly its quota.",
+    _E1NOTE, "DESIGN.md section 3 C09")
+
+chk("C10", "model_checking", "E1",
+    "stateless deviation-bounded exploration of multi-epoch runs; champion snapshot before vs population after each epoch",
+    "Same execution space as C02 with start genomes that carry disabled and recurrent genes and nil traits and structural profiles that create such champions within the run; for every species whose final quota exceeds five the next generation must contain a genome genetically equal (bit for bit, id ignored) to the pre-epoch snapshot of its fittest organism.",
+    _E1NOTE, "DESIGN.md section 3 C10")
